@@ -1,2 +1,393 @@
-(* Proofs about the notified-state models (C20). *)
-From ZV Require Import Notified.Notified.
+(* C20: the statements pinned in props/C20.v.  The property is proved on the latest-value cell
+   (abs_impl) from the history invariant of NotifiedSpec.v and carried over to the tokio and smol
+   models through the refinements of NotifiedTokio.v / NotifiedSmol.v. *)
+From ZV Require Import Notified.Notified Notified.NotifiedBase Notified.NotifiedTokio
+  Notified.NotifiedSmol Notified.NotifiedSpec.
+Open Scope Z_scope.
+Set Warnings "-unused-intro-pattern".
+
+
+(* ---------------------------------------------------------------- both models = the cell *)
+Theorem same_outputs ops : run tokio_impl ops = run smol_impl ops.
+Proof. now rewrite tokio_refines_abs, smol_refines_abs. Qed.
+
+Definition refines_cell (I : impl) : Prop := forall ops, run I ops = run abs_impl ops.
+
+Lemma modelled I : I = tokio_impl \/ I = smol_impl -> refines_cell I.
+Proof. intros [-> | ->] ops; [apply tokio_refines_abs | apply smol_refines_abs]. Qed.
+
+Theorem next_is_run I ops o :
+  run I (ops ++ [o]) = run I ops ++ [next I ops o] /\
+  trace I (ops ++ [o]) = trace I ops ++ [(o, next I ops o)].
+Proof. split; [apply run_snoc | apply trace_snoc]. Qed.
+
+(* every event of a history is `next` of the operations before it *)
+Theorem event_is_next I ops o r : In (o, r) (trace I ops) ->
+  exists ops1 ops2, ops = ops1 ++ o :: ops2 /\ r = next I ops1 o.
+Proof.
+  induction ops as [|x ops IH] using rev_ind; [intros []|].
+  rewrite trace_snoc. intros H. apply in_app_or in H as [H|[H|[]]].
+  - destruct (IH H) as (a & b & -> & E). exists a, (b ++ [x]). split; auto.
+    now rewrite <- app_assoc.
+  - injection H as <- <-. exists ops, []. auto.
+Qed.
+
+(* ---------------------------------------------------------------- the cell has the property *)
+Lemma In_dropped tr : dropped tr = true -> In (DropState, ODone) tr.
+Proof.
+  unfold dropped. intros H. apply existsb_exists in H as (e & Hin & He).
+  destruct e as [[] []]; try discriminate. exact Hin.
+Qed.
+
+Lemma subscribed_In s tr : In (Subscribe, OSub s) tr -> subscribed s tr = true.
+Proof.
+  intros H. unfold subscribed. apply existsb_exists. eexists; split; eauto. cbn. apply Nat.eqb_refl.
+Qed.
+
+Section Cell.
+Variable ops : list op.
+Variable s : nat.
+Let tr := trace abs_impl ops.
+Let st := final abs_impl ops.
+
+Lemma cell_inv : Inv tr st.
+Proof. apply Inv_trace. Qed.
+
+Lemma cell_sublist : sublist (received s tr) (sets_after s tr).
+Proof.
+  destruct cell_inv as [(Ho & Ha & Hrx & Hsub & Hrec & Hdead & Hlive) _].
+  destruct (nth_error (subs st) s) as [[k|]|] eqn:E.
+  - eapply sub_ok_sublist. eapply Hlive; eauto.
+  - now apply Hdead.
+  - rewrite Hrec; [apply sublist_nil_l|]. now apply nth_error_None.
+Qed.
+
+Lemma cell_poll_cases :
+  match nth_error (subs st) s with
+  | Some (Some k) =>
+      if (k <? a_n (ch st)) then next abs_impl ops (Poll s) = OItem (a_last (ch st)) CTrue
+      else next abs_impl ops (Poll s) = (if a_open (ch st) then OPending else OEnd)
+  | _ => next abs_impl ops (Poll s) = OGone
+  end.
+Proof.
+  unfold next. fold st. cbn [step abs_impl ch_poll].
+  destruct (nth_error (subs st) s) as [[k|]|]; auto.
+  unfold a_poll. destruct (k <? a_n (ch st)); reflexivity.
+Qed.
+
+Lemma cell_continues v c : next abs_impl ops (Poll s) = OItem v c -> c = CTrue.
+Proof.
+  pose proof cell_poll_cases as H.
+  destruct (nth_error (subs st) s) as [[k|]|]; try (rewrite H; discriminate).
+  destruct (k <? a_n (ch st)); rewrite H; [congruence|]. destruct (a_open (ch st)); discriminate.
+Qed.
+
+Lemma cell_end : next abs_impl ops (Poll s) = OEnd -> In (DropState, ODone) tr.
+Proof.
+  pose proof cell_poll_cases as H.
+  destruct cell_inv as [(Ho & Ha & _) _]. fold st in Ho, Ha.
+  destruct (nth_error (subs st) s) as [[k|]|]; try (rewrite H; discriminate).
+  destruct (k <? a_n (ch st)); rewrite H; [discriminate|].
+  destruct (a_open (ch st)) eqn:Eo; [discriminate|]. intros _.
+  apply In_dropped. rewrite <- Ho in Ha. destruct (dropped tr); auto; discriminate.
+Qed.
+
+Lemma cell_latest :
+  next abs_impl ops (Poll s) = OPending \/ next abs_impl ops (Poll s) = OEnd ->
+  last_opt (received s tr) = last_opt (sets_after s tr).
+Proof.
+  pose proof cell_poll_cases as H.
+  destruct cell_inv as [(_ & _ & _ & _ & _ & _ & Hlive) _]. fold st in Hlive.
+  destruct (nth_error (subs st) s) as [[k|]|] eqn:E; try (rewrite H; intros [X|X]; discriminate).
+  destruct (Z.ltb_spec k (a_n (ch st))) as [L|L]; rewrite H; [intros [X|X]; discriminate|].
+  intros _. destruct (Hlive _ _ E) as (Le & Hup & _). apply Hup. lia.
+Qed.
+
+Lemma cell_gone :
+  next abs_impl ops (Poll s) = OGone -> ~ In (Subscribe, OSub s) tr \/ In (DropSub s, ODone) tr.
+Proof.
+  pose proof cell_poll_cases as H.
+  destruct cell_inv as [(_ & _ & _ & Hsub & _ & Hdead & _) _]. fold st in Hsub, Hdead.
+  destruct (nth_error (subs st) s) as [[k|]|] eqn:E.
+  - destruct (k <? a_n (ch st)); rewrite H; [discriminate|]. destruct (a_open (ch st)); discriminate.
+  - intros _. right. now apply Hdead.
+  - intros _. left. intros Hin. apply subscribed_In, Hsub in Hin.
+    apply nth_error_None in E. exact (Nat.lt_irrefl _ (Nat.lt_le_trans _ _ _ Hin E)).
+Qed.
+
+Lemma cell_settled :
+  match next abs_impl (ops ++ [Poll s]) (Poll s) with OItem _ _ => False | _ => True end.
+Proof.
+  unfold next. rewrite final_snoc. fold st. cbn [step abs_impl ch_poll].
+  destruct (nth_error (subs st) s) as [[k|]|] eqn:E; cbn [fst snd subs].
+  - unfold a_poll at 1 2 3. destruct (Z.ltb_spec k (a_n (ch st))) as [L|L]; cbn [fst snd subs ch].
+    + rewrite (nth_error_upd_same _ _ _ _ _ E). unfold a_poll. rewrite Z.ltb_irrefl. cbn.
+      destruct (a_open (ch st)); exact I.
+    + rewrite (nth_error_upd_same _ _ _ _ _ E). unfold a_poll.
+      assert (F : (k <? a_n (ch st)) = false) by (apply Z.ltb_ge; lia). rewrite F. cbn.
+      destruct (a_open (ch st)); exact I.
+  - rewrite E. exact I.
+  - rewrite E. exact I.
+Qed.
+
+Lemma cell_no_panic o : next abs_impl ops o <> OPanic /\ next abs_impl ops o <> OFuel.
+Proof.
+  destruct cell_inv as [_ HN]. fold st in HN.
+  unfold next. fold st. destruct st as [v al c l nf oc]; cbn [notifier onc] in HN.
+  destruct o as [x| |t|t| |x| |]; cbn [step abs_impl alive ch subs notifier onc value
+     ch_set ch_sub ch_poll ch_droprx ch_close on_notify on_drop on_poll].
+  - destruct al; cbn; split; discriminate.
+  - destruct al; cbn; split; discriminate.
+  - destruct (nth_error l t) as [[k|]|]; try (cbn; split; discriminate).
+    unfold a_poll. destruct (k <? a_n c); cbn; [split; discriminate|].
+    destruct (a_open c); split; discriminate.
+  - destruct (nth_error l t) as [[k|]|]; cbn; split; discriminate.
+  - destruct al; cbn; split; discriminate.
+  - destruct nf; [|cbn; split; discriminate]. rewrite (HN eq_refl). cbn. split; discriminate.
+  - destruct nf; cbn; split; discriminate.
+  - destruct oc; cbn; split; discriminate.
+Qed.
+
+Lemma cell_set v :
+  next abs_impl ops (Set_ v) = OSet v \/
+  (next abs_impl ops (Set_ v) = OGone /\ In (DropState, ODone) tr).
+Proof.
+  destruct cell_inv as [(Ho & Ha & _) _]. fold st in Ho, Ha.
+  unfold next. fold st. cbn [step abs_impl ch_set].
+  destruct (alive st) eqn:Ea; cbn; auto.
+  right. split; auto. apply In_dropped. destruct (dropped tr); auto; discriminate.
+Qed.
+End Cell.
+
+(* polling until nothing is left takes at most two polls and ends with the last value set *)
+Lemma cell_converges ops s :
+  In (Subscribe, OSub s) (trace abs_impl ops) -> ~ In (DropSub s, ODone) (trace abs_impl ops) ->
+  exists o1 o2,
+    run abs_impl (ops ++ [Poll s; Poll s]) = run abs_impl ops ++ [o1; o2] /\
+    (o2 = OPending \/ (o2 = OEnd /\ In (DropState, ODone) (trace abs_impl ops))) /\
+    last_opt (received s (trace abs_impl (ops ++ [Poll s; Poll s]))) =
+    last_opt (sets_after s (trace abs_impl ops)).
+Proof.
+  intros Hsub Hnd.
+  set (ops1 := ops ++ [Poll s]).
+  set (o1 := next abs_impl ops (Poll s)). set (o2 := next abs_impl ops1 (Poll s)).
+  assert (Eops : ops ++ [Poll s; Poll s] = ops1 ++ [Poll s]).
+  { unfold ops1. now rewrite <- app_assoc. }
+  assert (T1 : trace abs_impl ops1 = trace abs_impl ops ++ [(Poll s, o1)]) by apply trace_snoc.
+  assert (T2 : trace abs_impl (ops ++ [Poll s; Poll s]) = trace abs_impl ops1 ++ [(Poll s, o2)]).
+  { rewrite Eops. apply trace_snoc. }
+  exists o1, o2. split.
+  { rewrite Eops, run_snoc. unfold ops1. rewrite run_snoc, <- app_assoc. reflexivity. }
+  assert (In1 : forall e, In e (trace abs_impl ops1) -> In e (trace abs_impl ops) \/ e = (Poll s, o1)).
+  { intros e H. rewrite T1 in H. apply in_app_or in H as [H|[H|[]]]; auto. }
+  assert (C : o2 = OPending \/ o2 = OEnd).
+  { pose proof (cell_poll_cases ops1 s) as P. pose proof (cell_settled ops s) as S.
+    pose proof (cell_gone ops1 s) as G. fold ops1 in S. fold o2 in P, S, G.
+    destruct (nth_error (subs (final abs_impl ops1)) s) as [[k|]|].
+    - destruct (k <? a_n (ch (final abs_impl ops1))).
+      + rewrite P in S. destruct S.
+      + rewrite P. destruct (a_open (ch (final abs_impl ops1))); auto.
+    - exfalso. destruct (G P) as [X|X].
+      + apply X. rewrite T1. apply in_or_app. now left.
+      + apply In1 in X as [X|X]; [auto|discriminate].
+    - exfalso. destruct (G P) as [X|X].
+      + apply X. rewrite T1. apply in_or_app. now left.
+      + apply In1 in X as [X|X]; [auto|discriminate]. }
+  split.
+  { destruct C as [C|C]; auto. right. split; auto.
+    pose proof (cell_end ops1 s) as E. fold o2 in E. apply E, In1 in C as [X|X]; [auto|discriminate]. }
+  pose proof (cell_latest ops1 s) as L. fold o2 in L.
+  rewrite T2, received_app.
+  assert (R0 : received s [(Poll s, o2)] = []) by (destruct C as [-> | ->]; reflexivity).
+  rewrite R0, app_nil_r, (L C), T1, sets_after_app, (subscribed_In _ _ Hsub).
+  assert (S0 : sets [(Poll s, o1)] = []) by (destruct o1; reflexivity).
+  now rewrite S0, app_nil_r.
+Qed.
+
+(* ---------------------------------------------------------------- one-shot on the cell *)
+Lemma frame_once (st : state abs_impl) o :
+  match o with Notify _ | DropNotifier | PollOnce => True
+  | _ => notifier (fst (step abs_impl st o)) = notifier st /\ onc (fst (step abs_impl st o)) = onc st
+  end.
+Proof.
+  destruct st as [v al c l nf oc].
+  destruct o as [x| |t|t| |x| |]; cbn [step abs_impl alive ch subs notifier onc value
+     ch_set ch_sub ch_poll ch_droprx ch_close]; auto.
+  - destruct al; cbn; auto.
+  - destruct al; cbn; auto.
+  - destruct (nth_error l t) as [[k|]|]; cbn; auto. destruct (a_poll c k) as [[? ?] ?]. cbn. auto.
+  - destruct (nth_error l t) as [[k|]|]; cbn; auto.
+  - destruct al; cbn; auto.
+Qed.
+
+Definition otrace (st : state abs_impl) (ops : list op) : list out :=
+  once_outs (combine ops (run_from abs_impl st ops)).
+
+Lemma otrace_cons st o ops :
+  otrace st (o :: ops) =
+  (if is_pollonce o then [snd (step abs_impl st o)] else []) ++ otrace (fst (step abs_impl st o)) ops.
+Proof.
+  unfold otrace. cbn [run_from]. destruct (step abs_impl st o) as [st1 r1]. cbn [combine once_outs fst snd].
+  destruct o; reflexivity.
+Qed.
+
+Lemma npolls_cons o ops : npolls (o :: ops) = ((if is_pollonce o then 1 else 0) + npolls ops)%nat.
+Proof. unfold npolls. cbn [filter]. destruct (is_pollonce o); reflexivity. Qed.
+
+Lemma once_over ops : forall st : state abs_impl, notifier st = false -> onc st = ADead \/ onc st = AFinished ->
+  otrace st ops = repeat OEnd (npolls ops).
+Proof.
+  induction ops as [|o ops IH]; intros st Hn Ho; [reflexivity|].
+  rewrite otrace_cons, npolls_cons.
+  pose proof (frame_once st o) as F.
+  destruct st as [v al c l nf oc]; cbn [notifier onc] in *. subst nf.
+  destruct o; try (destruct F as [F1 F2]; cbn [is_pollonce app Nat.add]; apply IH; [rewrite F1|rewrite F2]; auto).
+  - cbn. apply IH; auto.
+  - cbn. apply IH; auto.
+  - cbn [is_pollonce step abs_impl on_poll notifier onc].
+    destruct Ho as [-> | ->]; cbn; f_equal; apply IH; cbn; auto.
+Qed.
+
+Lemma once_armed ops : forall (st : state abs_impl) v, notifier st = false -> onc st = AArmed v ->
+  otrace st ops = match npolls ops with O => [] | S k => OItem v CFalse :: repeat OEnd k end.
+Proof.
+  induction ops as [|o ops IH]; intros st v Hn Ho; [reflexivity|].
+  rewrite otrace_cons, npolls_cons.
+  pose proof (frame_once st o) as F.
+  destruct st as [w al c l nf oc]; cbn [notifier onc] in *. subst nf oc.
+  destruct o; try (destruct F as [F1 F2]; cbn [is_pollonce app Nat.add]; apply IH; [rewrite F1|rewrite F2]; auto).
+  - cbn. apply IH; auto.
+  - cbn. apply IH; auto.
+  - cbn [is_pollonce step abs_impl on_poll notifier onc ao_poll fst snd app Nat.add].
+    f_equal. apply once_over; cbn; auto.
+Qed.
+
+Lemma once_idle ops : forall st : state abs_impl, notifier st = true -> onc st = AIdle ->
+  otrace st ops = once_expect ops.
+Proof.
+  induction ops as [|o ops IH]; intros st Hn Ho; [reflexivity|].
+  rewrite otrace_cons.
+  pose proof (frame_once st o) as F.
+  destruct st as [w al c l nf oc]; cbn [notifier onc] in *. subst nf oc.
+  destruct o; try (destruct F as [F1 F2]; cbn [is_pollonce app once_expect]; apply IH; [rewrite F1|rewrite F2]; auto).
+  - cbn [is_pollonce app once_expect step abs_impl on_notify notifier onc ao_notify fst snd].
+    apply once_armed; cbn; auto.
+  - cbn [is_pollonce app once_expect step abs_impl on_drop notifier onc ao_drop fst snd].
+    apply once_over; cbn; auto.
+  - cbn [is_pollonce step abs_impl on_poll notifier onc ao_poll fst snd app once_expect].
+    f_equal. apply IH; cbn; auto.
+Qed.
+
+Lemma cell_once ops : once_outs (trace abs_impl ops) = once_expect ops.
+Proof. apply (once_idle ops (init abs_impl)); reflexivity. Qed.
+
+(* the closed form, split at the first use of the notifier *)
+Lemma expect_unresolved pre : unresolved pre -> once_expect pre = repeat OPending (npolls pre).
+Proof.
+  induction pre as [|o pre IH]; intros U; [reflexivity|].
+  assert (U' : unresolved pre) by (intros x Hx; apply U; now right).
+  pose proof (U o (or_introl eq_refl)) as Uo.
+  rewrite npolls_cons. destruct o; cbn [once_expect is_pollonce Nat.add]; try (now apply IH); try tauto.
+  cbn. f_equal. now apply IH.
+Qed.
+
+Lemma expect_split pre rest : unresolved pre ->
+  once_expect (pre ++ rest) = repeat OPending (npolls pre) ++ once_expect rest.
+Proof.
+  induction pre as [|o pre IH]; intros U; [reflexivity|].
+  assert (U' : unresolved pre) by (intros x Hx; apply U; now right).
+  pose proof (U o (or_introl eq_refl)) as Uo.
+  rewrite npolls_cons. destruct o; cbn [app once_expect is_pollonce Nat.add]; try (now apply IH); try tauto.
+  cbn. f_equal. now apply IH.
+Qed.
+
+(* ---------------------------------------------------------------- carried over to the models *)
+Section Models.
+Variable I : impl.
+Hypothesis HI : refines_cell I.
+
+Lemma m_trace ops : trace I ops = trace abs_impl ops.
+Proof. now apply trace_eq. Qed.
+Lemma m_next ops o : next I ops o = next abs_impl ops o.
+Proof. now apply next_eq. Qed.
+
+Theorem subsequence_latest ops s :
+  let tr := trace I ops in
+  sublist (received s tr) (sets_after s tr) /\
+  (forall v c, next I ops (Poll s) = OItem v c -> c = CTrue) /\
+  (next I ops (Poll s) = OEnd -> In (DropState, ODone) tr) /\
+  (next I ops (Poll s) = OPending \/ next I ops (Poll s) = OEnd ->
+   last_opt (received s tr) = last_opt (sets_after s tr)) /\
+  match next I (ops ++ [Poll s]) (Poll s) with OItem _ _ => False | _ => True end /\
+  (next I ops (Poll s) = OGone -> ~ In (Subscribe, OSub s) tr \/ In (DropSub s, ODone) tr) /\
+  (forall v, next I ops (Set_ v) = OSet v \/
+             (next I ops (Set_ v) = OGone /\ In (DropState, ODone) tr)) /\
+  (forall o, next I ops o <> OPanic /\ next I ops o <> OFuel).
+Proof.
+  cbv zeta. rewrite m_trace, !m_next.
+  split; [apply cell_sublist|]. split; [apply cell_continues|]. split; [apply cell_end|].
+  split; [apply cell_latest|]. split; [apply cell_settled|]. split; [apply cell_gone|].
+  split; [intros v; rewrite m_next; apply cell_set|]. intros o. rewrite m_next. apply cell_no_panic.
+Qed.
+
+Theorem converges ops s :
+  In (Subscribe, OSub s) (trace I ops) -> ~ In (DropSub s, ODone) (trace I ops) ->
+  exists o1 o2,
+    run I (ops ++ [Poll s; Poll s]) = run I ops ++ [o1; o2] /\
+    (o2 = OPending \/ (o2 = OEnd /\ In (DropState, ODone) (trace I ops))) /\
+    last_opt (received s (trace I (ops ++ [Poll s; Poll s]))) =
+    last_opt (sets_after s (trace I ops)).
+Proof. rewrite !m_trace, !HI. apply cell_converges. Qed.
+
+Theorem once_exact pre post v : unresolved pre ->
+  once_outs (trace I pre) = repeat OPending (npolls pre) /\
+  once_outs (trace I (pre ++ Notify v :: post)) =
+    repeat OPending (npolls pre) ++
+    match npolls post with O => [] | S k => OItem v CFalse :: repeat OEnd k end /\
+  once_outs (trace I (pre ++ DropNotifier :: post)) =
+    repeat OPending (npolls pre) ++ repeat OEnd (npolls post).
+Proof.
+  intros U. rewrite !m_trace, !cell_once.
+  split; [now apply expect_unresolved|]. split; now rewrite expect_split.
+Qed.
+End Models.
+
+(* ---------------------------------------------------------------- the pinned forms *)
+Theorem latest_value_cell ops :
+  run tokio_impl ops = run abs_impl ops /\ run smol_impl ops = run abs_impl ops.
+Proof. split; [apply tokio_refines_abs | apply smol_refines_abs]. Qed.
+
+Theorem subsequence_latest_models I : I = tokio_impl \/ I = smol_impl ->
+  forall (ops : list op) (s : nat),
+  let tr := trace I ops in
+  sublist (received s tr) (sets_after s tr) /\
+  (forall v c, next I ops (Poll s) = OItem v c -> c = CTrue) /\
+  (next I ops (Poll s) = OEnd -> In (DropState, ODone) tr) /\
+  (next I ops (Poll s) = OPending \/ next I ops (Poll s) = OEnd ->
+   last_opt (received s tr) = last_opt (sets_after s tr)) /\
+  match next I (ops ++ [Poll s]) (Poll s) with OItem _ _ => False | _ => True end /\
+  (next I ops (Poll s) = OGone -> ~ In (Subscribe, OSub s) tr \/ In (DropSub s, ODone) tr) /\
+  (forall v, next I ops (Set_ v) = OSet v \/
+             (next I ops (Set_ v) = OGone /\ In (DropState, ODone) tr)) /\
+  (forall o, next I ops o <> OPanic /\ next I ops o <> OFuel).
+Proof. intros H. apply subsequence_latest. now apply modelled. Qed.
+
+Theorem once_models I : I = tokio_impl \/ I = smol_impl ->
+  forall (pre post : list op) (v : N), unresolved pre ->
+  once_outs (trace I pre) = repeat OPending (npolls pre) /\
+  once_outs (trace I (pre ++ Notify v :: post)) =
+    repeat OPending (npolls pre) ++
+    match npolls post with O => [] | S k => OItem v CFalse :: repeat OEnd k end /\
+  once_outs (trace I (pre ++ DropNotifier :: post)) =
+    repeat OPending (npolls pre) ++ repeat OEnd (npolls post).
+Proof. intros H. apply once_exact. now apply modelled. Qed.
+
+Theorem converges_models I : I = tokio_impl \/ I = smol_impl ->
+  forall (ops : list op) (s : nat),
+  In (Subscribe, OSub s) (trace I ops) -> ~ In (DropSub s, ODone) (trace I ops) ->
+  exists o1 o2,
+    run I (ops ++ [Poll s; Poll s]) = run I ops ++ [o1; o2] /\
+    (o2 = OPending \/ (o2 = OEnd /\ In (DropState, ODone) (trace I ops))) /\
+    last_opt (received s (trace I (ops ++ [Poll s; Poll s]))) =
+    last_opt (sets_after s (trace I ops)).
+Proof. intros H. apply converges. now apply modelled. Qed.
